@@ -21,14 +21,14 @@ theorem continuity_eq_shared [FloorRing K] (b : Basis K) (tol t : K) :
     Tol.continuity b tol t = b.continuity tol t := by
   unfold Tol.continuity Basis.continuity Basis.bisectL Basis.size
   by_cases hper : b.periodic ≥ 0
-  · have h1 : ¬ (b.periodic < 0 ∧ (t < b.start ∨ b.stop < t)) := fun h => by omega
+  · have h1 : ¬ (b.periodic < 0 ∧ (t < b.start - tol ∨ b.stop + tol < t)) := fun h => by omega
     simp only [h1, if_false, hper, true_and, if_true]
     split_ifs <;> rfl
   · have hneg : b.periodic < 0 := by omega
-    by_cases hout : t < b.start ∨ b.stop < t
+    by_cases hout : t < b.start - tol ∨ b.stop + tol < t
     · simp only [hneg, hout, and_self, if_true, hper, if_false]
       rfl
-    · simp only [if_false, hper, hout, and_false]
+    · simp only [if_false, hper, hout, and_false, false_and]
       split_ifs <;> rfl
 
 /-- The accumulating loop of `knot_spans` on an array (shared model) and on a reversed list
